@@ -794,17 +794,20 @@ pub fn run_sugar(tier: &str, seed: u64) -> Sink {
             }
         };
         let drop = r.chance(1, 2);
+        // the single argument: a string or an empty table (two tokens: the trivia of interest sits in front of `{` and behind `}`)
+        let table_arg = r.chance(1, 3);
+        let arg_text = if table_arg { "{}" } else { "\"x\"" };
         let mut src = String::from("callee_name");
         let mut count = 0;
         if drop {
             src.push('(');
             gap(&mut src, &mut r, &mut count, true);
-            src.push_str("\"x\"");
+            src.push_str(arg_text);
             gap(&mut src, &mut r, &mut count, true);
             src.push(')');
         } else {
             gap(&mut src, &mut r, &mut count, false);
-            src.push_str("\"x\"");
+            src.push_str(arg_text);
         }
         // behind the call, on its line
         let mut open = true;
@@ -855,28 +858,31 @@ pub fn run_sugar(tier: &str, seed: u64) -> Sink {
         };
         let eof = toks.len();
         let req = if drop {
-            if sig.len() != 4 {
+            if sig.len() != if table_arg { 5 } else { 4 } {
                 return sink;
             }
+            let last_arg = if table_arg { sig[3] } else { sig[2] };
+            let close = if table_arg { sig[4] } else { sig[3] };
             let (callee_trail, open_lead) = split(sig[0], sig[1]);
             if callee_trail != "-" && callee_trail.contains(|ch| ch == 'L' || ch == 'B') {
                 return sink;
             }
             let (open_trail, arg_lead) = split(sig[1], sig[2]);
-            let (arg_trail, close_lead) = split(sig[2], sig[3]);
-            let close_trail = triv_items(&toks[sig[3] + 1..line_end(sig[3] + 1, eof)]);
-            format!("sugar drop {} {} {} {} {} {} {}", if crlf { "crlf" } else { "lf" }, open_lead, open_trail, arg_lead, arg_trail, close_lead, close_trail)
+            let (arg_trail, close_lead) = split(last_arg, close);
+            let close_trail = triv_items(&toks[close + 1..line_end(close + 1, eof)]);
+            format!("sugar drop {} {} {} {} {} {} {} {}", if crlf { "crlf" } else { "lf" }, hex(arg_text.as_bytes()), open_lead, open_trail, arg_lead, arg_trail, close_lead, close_trail)
         } else {
-            if sig.len() != 2 {
+            if sig.len() != if table_arg { 3 } else { 2 } {
                 return sink;
             }
+            let last_arg = if table_arg { sig[2] } else { sig[1] };
             let (callee_trail, arg_lead) = split(sig[0], sig[1]);
             if callee_trail.contains(|ch| ch == 'L' || ch == 'B') {
                 // a comment behind the callee is the callee's (not modelled here)
                 return sink;
             }
-            let arg_trail = triv_items(&toks[sig[1] + 1..line_end(sig[1] + 1, eof)]);
-            format!("sugar add {} {} {}", if crlf { "crlf" } else { "lf" }, arg_lead, arg_trail)
+            let arg_trail = triv_items(&toks[last_arg + 1..line_end(last_arg + 1, eof)]);
+            format!("sugar add {} {} {} {}", if crlf { "crlf" } else { "lf" }, hex(arg_text.as_bytes()), arg_lead, arg_trail)
         };
         if let Outcome::Ok(out) = fmt(&src, c, None, false) {
             let eol = if crlf { "\r\n" } else { "\n" };
